@@ -336,7 +336,11 @@ fn gen(ctx: &GenCtx, i: u64) -> Option<Run> {
     // ---- block E: arbitrary strings
     let mut rb = RunBuilder::new("C09", "byzantine-sender/arbitrary-text", ctx.verif_seed, i);
     let proto = random_proto(&mut r);
-    let vfooter = if r.chance(1, 3) { Some(nonempty_text!(r, 8)) } else { None };
+    let vfooter = match r.below(6) {
+        0 | 1 => Some(nonempty_text!(r, 8)),
+        2 => Some("foo".to_string()),
+        _ => None,
+    };
     let vs = verifiers_for(&mut rb, &mut r, proto, vfooter);
     let n = 1 + r.usize(20);
     for _ in 0..n {
@@ -371,6 +375,14 @@ fn gen(ctx: &GenCtx, i: u64) -> Option<Run> {
                 let pre = "A".repeat(r.usize(6));
                 let f = if r.chance(1, 3) { format!(".{}", ch.repeat(1 + r.usize(4))) } else { String::new() };
                 format!("{}{}{}{}{}", proto.header(), pre, ch.repeat(n), "A".repeat(r.usize(6)), f)
+            }
+            5 if r.chance(1, 2) => {
+                // well-formed shape, a version that does not exist (or is spelt differently)
+                let v = *r.pick(&["v0", "v5", "v6", "v7", "v8", "v9", "v10", "v255", "v", "V4", "v٤", "v-1", "v04", "4", "v4 "]);
+                let p = *r.pick(&["local", "public", "Local", "secret", ""]);
+                let l = r.usize(120);
+                let f = if r.chance(1, 2) { ".Zm9v" } else { "" };
+                format!("{}.{}.{}{}", v, p, b64(&r.bytes(l)), f)
             }
             5 => format!("{}{}", proto.header(), "A".repeat(r.usize(600))),
             6 => {
